@@ -26,6 +26,9 @@ def _codec_error_url_quote(e: UnicodeError) -> tuple[str, int]:
 codecs.register_error("werkzeug.url_quote", _codec_error_url_quote)
 
 
+_dangling_percent_re = re.compile(r"%(?![0-9A-Fa-f]{2})")
+
+
 def _make_unquote_part(name: str, chars: str) -> t.Callable[[str], str]:
     """Create a function that unquotes all percent encoded characters except those
     given. This allows working with unquoted characters if possible while not changing
@@ -35,6 +38,9 @@ def _make_unquote_part(name: str, chars: str) -> t.Callable[[str], str]:
     pattern = re.compile(f"((?:%(?:{choices}))+)", re.I)
 
     def _unquote_partial(value: str) -> str:
+        # Quote a "%" that does not start an escape, otherwise unquoting the
+        # text after it could complete it to one ("%a%41" -> "%aA").
+        value = _dangling_percent_re.sub("%25", value)
         parts = iter(pattern.split(value))
         out = []
 
